@@ -18,8 +18,9 @@ def setup():
     if L is not None:
         return
     L, PT, EXC = common.mako("lexer", "parsetree", "exceptions")
+    PG = common.mako("pygen")
     PT.ast = common.stub_ast_namespace()
-    L.adjust_whitespace = lambda t: t
+    # adjust_whitespace (re-margining of <% %> blocks; its correctness is C19's subject) runs for real: it is part of "lexing terminates"
 
     class StubTag(PT.Node):
         """records keyword/attributes; tag semantics are other properties' subject"""
@@ -34,7 +35,7 @@ def setup():
     NS = types.SimpleNamespace(**{k: v for k, v in vars(PT).items() if not k.startswith("__")})
     NS.Tag = StubTag
     L.parsetree = NS
-    DOMAIN = common.domain_for([L, PT], reps=2)
+    DOMAIN = common.domain_for([L, PT, PG], reps=2)
     values.set_domain(DOMAIN)
 
 
@@ -144,6 +145,7 @@ def make_harness(n=None, skeleton=None, pre=None):
                 else:
                     items.extend(part)
             s = SymStr(items)
+        p.note("template", s)
         r = run_lexer(s, pre)
         p.tag("raised" if r["exc"] is not None else "parsed")
         r["input"] = s
@@ -159,6 +161,10 @@ def make_harness(n=None, skeleton=None, pre=None):
 
 
 def on_path(p, r, exc, acc):
+    if isinstance(exc, core.PathTimeout):
+        t = exc.inputs.get("template")
+        acc.candidate(kind="lexing-does-not-terminate", input=t, pre=None, raw=t, detail=str(exc))
+        return
     if exc is not None:
         # anything but a Mako Syntax/Compile exception escaping the lexer
         w = None
@@ -220,7 +226,11 @@ def on_path(p, r, exc, acc):
                 elif st == "unknown":
                     acc.vcs_unknown += 1
     # ---- layer 3: differential replay of this path's witness on the unpatched real lexer
-    real = realproc.call("lex_structure", r["input"].concretize(m) if r.get("pre") else w, r.get("pre"))
+    try:
+        real = realproc.call("lex_structure", r["input"].concretize(m) if r.get("pre") else w, r.get("pre"))
+    except realproc.RealTimeout as e:
+        acc.candidate(kind="lexing-does-not-terminate", input=w, pre=r.get("pre"), raw=r["input"].concretize(m), detail=str(e))
+        return
     if r["exc"] is not None:
         mine = ("exc", type(r["exc"]).__name__, r["exc"].lineno, r["exc"].pos)
     else:
@@ -268,6 +278,9 @@ SKELETONS = {
     "doc-nl": ["a<%doc>", 1, "</%doc>", 1, "b"],
     "empty-text": [1, "<%text></%text>", 1],
     "coding": ["# coding: utf-8\n", 2],
+    "block-with-literal": ["<% x = '", 1, "' %>", 1],
+    "block-with-continued-literal": ["<%\n x = 'a", 1, "\\\n", 1, "b'\n%>"],
+    "block-with-comment": ["<% x = 1 #", 2, "\n%>"],
 }
 
 
@@ -282,12 +295,17 @@ from oracles import tokenizer
 from mako.template import Template
 from mako import exceptions
 from props.realops import _PRE
+import signal
+def _alarm(*a):
+    print("template:", repr(TEMPLATE)); print("VIOLATED: lexing this template does not terminate (no result after 8 s)"); os._exit(1)
+signal.signal(signal.SIGALRM, _alarm); signal.alarm(8)
 try:
     out = ("ok", Template(RAW, preprocessor=_PRE[PRE]).render_unicode(x="${x}") if PRE else Template(TEMPLATE).render_unicode())
 except (exceptions.SyntaxException, exceptions.CompileException) as e:
     out = ("exc", type(e).__name__)
 except Exception as e:
     out = ("err", type(e).__name__, str(e))
+signal.alarm(0)
 admissible = set()
 for pol, r in tokenizer.readings(list(TEMPLATE)):
     admissible.add(("ok", "".join(r[1])) if r[0] == "out" else (r[0],))
@@ -317,7 +335,7 @@ def run(check, tier):
         "characters are abstracted to %d representative code points: one per class of code points the lexer's regexes, "
         "string constants and str methods cannot tell apart (all of ASCII kept individually); sound because the lexer "
         "inspects characters only through such tests (any other operation on a symbolic character aborts the run)" % len(DOMAIN.cps),
-        "embedded Python is not parsed: mako.parsetree.ast is replaced by recording stubs and adjust_whitespace by identity (C19's subject)",
+        "embedded Python is not parsed: mako.parsetree.ast is replaced by recording stubs; pygen.adjust_whitespace runs for real (its result is C19's subject, its termination is part of this property)",
         "tag construction is replaced by a recording stub (tag attribute semantics: C05/C07/C11)",
         "reference tokenizer oracles/tokenizer.py states the expected output; where the statement is ambiguous it admits each reading "
         "(bare CR inside a ##/% line; newline after </%doc>; non-blank whitespace before a line-leading %%)")
